@@ -57,8 +57,12 @@ def main():
         for f in demos:
             os.remove(os.path.join(wt, pkg, os.path.basename(f)))
         t0 = time.time()
-        rc, out = sh(["go", "test", "-count=1", pkg], cwd=wt)
+        # ./tikv: the TestKV suite panics in this sandbox on the unchanged tree too (not part of the stable baseline)
+        skip = ["-skip", "^TestKV$"] if pkg.rstrip("/") == "./tikv" else []
+        rc, out = sh(["go", "test", "-count=1"] + skip + [pkg], cwd=wt)
         res["existing_tests_of_pkg_pass_with_patch"] = rc == 0
+        if skip:
+            res["existing_tests_note"] = "run with -skip ^TestKV$ (that suite panics on the unchanged tree in this sandbox)"
         res["existing_tests_wall_s"] = round(time.time() - t0, 1)
         if rc != 0:
             res["existing_tests_excerpt"] = "\n".join([l for l in out.splitlines() if l.startswith("--- FAIL") or l.startswith("FAIL") or "panic:" in l][:6])
